@@ -40,6 +40,15 @@ CLAIMS = {
                 text="Logout family (OPDesign_logout.cfg, rules C18.*): id_token_hint kinds x client_id x post_logout_redirect_uri x state after real "
                      "code flows; redirect target, rejected hints, contradiction, terminated session (storage journal) and state judged by the monitor.",
                 technique="TLA+ design spec model-checked with TLC; MBT replay + trace validation by the TLA+ monitor"),
+    "C13": dict(level="model_checking", ref="DESIGN.md §3 C13",
+                text="TLC explores every interleaving of the critical sections of rp.remoteKeySet for 2-3 concurrent calls with rotation, endpoint "
+                     "failures and cancellation (KSDesign: safety rules C13.*, single-flight invariants, cache-never-shrinks, termination under fairness); "
+                     "TLC-generated schedules are replayed deterministically into the real key set through blocking verif hooks (gate scheduler), and "
+                     "free-running stress runs under the race detector are recorded through the same hooks; every recorded event log is validated by "
+                     "the monitor KSTrace, which compares logged cache lengths / created / ok flags with its own state and evaluates the rules.",
+                technique="TLA+ spec of the key set model-checked with TLC; TLC schedules replayed via gate hooks; hook traces (incl. -race stress) validated by the TLA+ monitor",
+                note="Trusted: TLC, the hook placement (add-only, under the key set's mutex where the state changes), the fake JWKS RoundTripper. "
+                     "Assumes kids are not reused for different key material. Bounds: KSDesign_*.cfg."),
     "C16": dict(level="model_checking", ref="DESIGN.md §3 C16",
                 text="Device family (OPDesign_device.cfg, rules C16.*): histories of device_authorization / approve / deny / expire / poll by several "
                      "clients; answers by state, client binding, subject and scopes of issued tokens; trace validation on both routers.",
